@@ -1412,3 +1412,42 @@ def assume_scan(facts, fn, oracle, cap=256):
 
     exits, ins, parent = scan(fn, (), on_stmt, on_term, on_edge, cap=cap)
     return [(bi, rc, st) for (bi, us, rc, st) in exits], parent, forced[0]
+
+
+_ORD = {'Lt': {'lt'}, 'Le': {'lt', 'eq'}, 'Gt': {'gt'}, 'Ge': {'gt', 'eq'}, 'Eq': {'eq'}, 'Ne': {'lt', 'gt'}}
+_ORD_ALL = frozenset(['lt', 'eq', 'gt'])
+_ORD_FLIP = {'lt': 'gt', 'gt': 'lt', 'eq': 'eq'}
+
+
+def cmp_regions(sw, flip=False):
+    """for a comparison switch: (lhs, rhs, {succ: frozenset of orderings of lhs vs rhs on that edge})"""
+    c = cmp_of(sw)
+    if c is None:
+        return None
+    op, a, b = c
+    out = {}
+    for s2, lab in sw.labels.items():
+        if lab is None:
+            continue
+        o = set(_ORD[op]) if lab else set(_ORD_ALL - _ORD[op])
+        if flip:
+            o = {_ORD_FLIP[x] for x in o}
+        out[s2] = frozenset(o)
+    return (b, a, out) if flip else (a, b, out)
+
+
+def additive_leaves(e):
+    """leaves of a tree of (checked) additions; None when another operator is involved"""
+    e = strip(e)
+    while e[0] == 'cast':
+        e = strip(e[1])
+    if e[0] == 'field' and e[3] == '0' and strip(e[1])[0] == 'bin' and strip(e[1])[1] == 'AddWithOverflow':
+        e = strip(e[1])
+    if e[0] == 'bin':
+        if e[1] not in ('Add', 'AddWithOverflow', 'AddUnchecked'):
+            return None
+        a, b = additive_leaves(e[2]), additive_leaves(e[3])
+        if a is None or b is None:
+            return None
+        return a + b
+    return [e]
